@@ -128,6 +128,41 @@ Definition CFDivisor___rmul__ (self_degrees : dictZ) (self_graph_vertices : list
   let new_degrees := (map (fun '(v, deg) => (v, (n * deg))) self_degrees) in
   match CFDivisor___init__ set_order self_graph_vertices self_graph_graph new_degrees with PyExn _ => PyExn tt | PyOk new_ => PyOk (new_) end.
 
+(* chipfiring/CFDivisor.py :: CFDivisor.__eq__   reads ['self_degrees', 'self_graph_vertices', 'self_graph_graph'], writes [], may raise *)
+Definition CFDivisor___eq__ (self_degrees : dictZ) (self_graph_vertices : list nat) (self_graph_graph : dictD) (set_order : list nat -> list nat) (other : (option (list nat * dictD * dictZ))) : pyres (unit) bool :=
+  match other with None => PyOk (false) | Some (other_graph_vertices, other_graph_graph, other_degrees) =>
+  if (negb (set_eqb (d_keys self_degrees) (d_keys other_degrees))) then
+  PyOk (false)
+  else
+  match fold_left (fun acc_ kv_ => match acc_ with PyExn e_ => PyExn e_ | PyOk (Some r_, tt) => PyOk (Some r_, tt) | PyOk (None, tt) => let '(vertex, degree) := kv_ in
+  match d_find vertex other_degrees with None => PyExn tt | Some t1_ =>
+  if (negb (t1_ =? degree)) then
+  PyOk (Some (false), tt)
+  else
+  PyOk (None, tt) end end) self_degrees (PyOk (None, tt)) with PyExn e_ => PyExn e_ | PyOk (Some r_, tt) => PyOk (r_) | PyOk (None, tt) =>
+  if (negb (set_eqb self_graph_vertices other_graph_vertices)) then
+  PyOk (false)
+  else
+  match fold_left (fun acc_ v => match acc_ with PyExn e_ => PyExn e_ | PyOk (Some r_, tt) => PyOk (Some r_, tt) | PyOk (None, tt) => 
+  if (negb (d_mem v other_graph_graph)) then
+  PyOk (Some (false), tt)
+  else
+  match d_find v self_graph_graph with None => PyExn tt | Some t2_ =>
+  match d_find v other_graph_graph with None => PyExn tt | Some t3_ =>
+  if (negb (set_eqb (d_keys t2_) (d_keys t3_))) then
+  PyOk (Some (false), tt)
+  else
+  match d_find v self_graph_graph with None => PyExn tt | Some t4_ =>
+  match fold_left (fun acc_ kv_ => match acc_ with PyExn e_ => PyExn e_ | PyOk (Some r_, tt) => PyOk (Some r_, tt) | PyOk (None, tt) => let '(neighbor, weight) := kv_ in
+  match d_find v other_graph_graph with None => PyExn tt | Some t5_ =>
+  match d_find neighbor t5_ with None => PyExn tt | Some t6_ =>
+  if (negb (t6_ =? weight)) then
+  PyOk (Some (false), tt)
+  else
+  PyOk (None, tt) end end end) t4_ (PyOk (None, tt)) with PyExn e_ => PyExn e_ | PyOk (Some r_, tt) => PyOk (Some r_, tt) | PyOk (None, tt) =>
+  PyOk (None, tt) end end end end end) (set_order self_graph_vertices) (PyOk (None, tt)) with PyExn e_ => PyExn e_ | PyOk (Some r_, tt) => PyOk (r_) | PyOk (None, tt) =>
+  PyOk (true) end end end.
+
 (* chipfiring/CFDivisor.py :: CFDivisor.__add__   reads ['self_graph_vertices', 'self_degrees', 'self_graph_graph'], writes [], may raise *)
 Definition CFDivisor___add__ (self_graph_vertices : list nat) (self_degrees : dictZ) (self_graph_graph : dictD) (set_order : list nat -> list nat) (other_graph_vertices : list nat) (other_degrees : dictZ) : pyres (unit) (dictZ * Z) :=
   if (negb (set_eqb self_graph_vertices other_graph_vertices)) then
